@@ -89,6 +89,8 @@ func customErr(i int) error { return fmt.Errorf("custom failure number %d", i) }
 func (m *msgSpec) value(idx int) any {
 	r := rand.New(rand.NewSource(m.PaySeed))
 	switch m.PayKind {
+	case "bool":
+		return m.PaySeed%2 == 0 // two bytes of EDF: the shortest value there is
 	case "error":
 		switch m.PaySize % 4 {
 		case 0:
@@ -193,7 +195,9 @@ func genSize(r *rand.Rand, big bool) int {
 	case 4:
 		return 17000 + r.Intn(3000)
 	case 5:
-		return 33000 + r.Intn(500)
+		if r.Intn(4) == 0 {
+			return 33000 + r.Intn(500)
+		}
 	}
 	return 3000 + r.Intn(3000)
 }
@@ -225,7 +229,7 @@ func genC12Case(r *rand.Rand, i int) c12Case {
 	c.Cfg.Policy = []string{"byte", "random", "random", "coalesce", "coalesce", "asis"}[r.Intn(6)]
 	c.Cfg.Cache = r.Intn(3) == 0
 	c.Cfg.Seed = r.Int63n(1 << 40)
-	big := r.Intn(6) == 0
+	big := r.Intn(11) == 0 // payloads over several growths of the 4 KiB pooled buffer
 	if c.Cfg.Policy == "byte" && big {
 		c.Cfg.Policy = "random"
 	}
@@ -269,6 +273,7 @@ func genC12Case(r *rand.Rand, i int) c12Case {
 		if isErrorKind(m.Kind) {
 			m.PayKind = "error"
 			m.PaySize = r.Intn(60)
+			m.Comp = compSpec{} // SendExit / SendTerminate* never compress
 		}
 		if m.Kind == "response_error" {
 			m.Code = []int{0, 1, 2, 3, 255}[r.Intn(5)]
@@ -279,6 +284,15 @@ func genC12Case(r *rand.Rand, i int) c12Case {
 		c.Msgs = append(c.Msgs, m)
 	}
 	makeUnique(c.Msgs)
+	if limitMode == 0 && r.Intn(2) == 0 {
+		// exactly at the limit, one below, one above (uncompressed length of one of the frames)
+		k := r.Intn(len(c.Msgs))
+		c.Cfg.MaxAB = plainFrameLen(&c.Msgs[k], k, c.Cfg.Cache) + r.Intn(3) - 1
+		if c.Cfg.MaxAB < 16 {
+			c.Cfg.MaxAB = 16
+		}
+		return c
+	}
 	switch limitMode {
 	case 0:
 		s := sizes[r.Intn(len(sizes))]
@@ -290,6 +304,21 @@ func genC12Case(r *rand.Rand, i int) c12Case {
 		c.Cfg.MaxAB = 64 + r.Intn(40000)
 	}
 	return c
+}
+
+// plainFrameLen: header + fixed fields + EDF payload of the frame a message produces when not compressed.
+func plainFrameLen(m *msgSpec, idx int, cache bool) int {
+	nameLen := 1 + len(m.Name)
+	if cache && cachedNames[gen.Atom(m.Name)] > 0 {
+		nameLen = 2
+	}
+	fixed := map[string]int{"send_pid": 33, "send_name": 25 + nameLen, "send_alias": 49, "send_event": 25 + nameLen, "send_exit": 25,
+		"response": 49, "response_error": 50, "call_pid": 49, "call_name": 41 + nameLen, "call_alias": 65,
+		"term_pid": 17, "term_name": 9 + nameLen, "term_alias": 33, "term_event": 9 + nameLen}[m.Kind]
+	if m.Kind == "response_error" && m.Code != 255 {
+		return fixed
+	}
+	return fixed + len(edfBytes(m.value(idx)))
 }
 
 // makeUnique changes payload sizes until no two messages of a case carry equal values (the
@@ -337,7 +366,9 @@ func corpusC12() []c12Case {
 	c3 := c12Case{Cfg: pairCfg{Pool: 2, Important: true, Policy: "coalesce", Seed: 7}, Msgs: []msgSpec{nm, nm2, nm}, Note: "important by name, coalesced"}
 	c3.Msgs[2].Ref = [3]uint64{79, 0, 0}
 	c3.Msgs[2].PaySeed = 9
-	return []c12Case{c1, c2, c3}
+	ev := msgSpec{Kind: "send_event", From: 1003, Name: "", Keep: true, Ref: [3]uint64{1234567, 0, 0}, PayKind: "bool"}
+	c4 := c12Case{Cfg: pairCfg{Pool: 1, Important: true, Policy: "asis", Seed: 8}, Msgs: []msgSpec{ev}, Note: "event with empty name and a two-byte value: shortest event frame (28 bytes = the receiver's guard)"}
+	return []c12Case{c1, c2, c3, c4}
 }
 
 // ---------------------------------------------------------------------------------------
@@ -359,6 +390,7 @@ type c12Obs struct {
 	LogB      []string
 	LogA      []string
 	Hung      string
+	Ambiguous bool
 }
 
 type zEntry struct {
@@ -474,6 +506,17 @@ func runC12Case(c c12Case) (obs c12Obs) {
 	}
 	p.coreB.result = func(cl *Call) error {
 		cl.Val = match(cl.value, cl.Kind)
+		if cl.Kind == "response_error" {
+			cl.Val = -1
+			if cl.Code == 255 {
+				for i := range c.Msgs {
+					if e, ok := values[i].(error); ok && c.Msgs[i].Kind == "response_error" && c.Msgs[i].Code == 255 && e.Error() == cl.Err {
+						cl.Val = i
+					}
+				}
+			}
+			return nil
+		}
 		if cl.Val >= 0 {
 			return resultErr(c.Msgs[cl.Val].Result, cl.Val)
 		}
@@ -576,7 +619,52 @@ func runC12Case(c c12Case) (obs c12Obs) {
 			}
 		}
 	}
+	// a message refused after compression left nothing on the wire: learn its compressed form from a
+	// second, unlimited connection. The 8 stale bytes of a non-important message differ between the
+	// two attempts, so a refusal within a few bytes of the limit cannot be judged: such cases are skipped.
+	for i := range c.Msgs {
+		m := &c.Msgs[i]
+		if obs.Rets[i] != 1 || !m.Comp.Enable {
+			continue
+		}
+		fr := probeFrame(c, m, values[i])
+		if fr == nil || len(fr) < 13 || fr[7] != 200 {
+			continue
+		}
+		d, err := stdDecompress(int(fr[8]), fr[13:])
+		if err != nil {
+			continue
+		}
+		obs.ZTable = append(obs.ZTable, zEntry{Type: int(fr[8]), Inner: d, Stream: fr[13:]})
+		if typeBytesOf(m.Kind, d[7]) && !m.Important && len(d) >= 25 {
+			obs.RawRef0[i] = binary.BigEndian.Uint64(d[17:25])
+			if diff := len(fr) - c.Cfg.MaxAB; diff > -24 && diff < 24 {
+				obs.Ambiguous = true
+			}
+		}
+	}
 	return obs
+}
+
+func probeFrame(c c12Case, m *msgSpec, v any) []byte {
+	p, err := newPair(pairCfg{Pool: 1, Important: c.Cfg.Important, Policy: "asis", Cache: c.Cfg.Cache, Seed: 1})
+	if err != nil {
+		return nil
+	}
+	defer p.close()
+	if _, err := p.addLink(false); err != nil {
+		return nil
+	}
+	if err := sendOne(p.connA, m, v); err != nil {
+		return nil
+	}
+	p.quiesce(1, 0, time.Second)
+	tap, _ := p.links[0].ab.snapshot()
+	frs := splitFrames(tap)
+	if len(frs) != 1 {
+		return nil
+	}
+	return frs[0]
 }
 
 func typeBytesOf(kind string, t byte) bool {
@@ -646,7 +734,9 @@ func expectedCallB(m *msgSpec, idx int) Call {
 		c.From, c.To, c.Prio, c.Ref = m.From, m.To, m.Prio, m.Ref
 	case "response_error":
 		c.From, c.To, c.Prio, c.Ref, c.Code = m.From, m.To, m.Prio, m.Ref, m.Code
-		c.Val = -1
+		if m.Code != 255 {
+			c.Val = -1
+		}
 	case "call_pid":
 		c.From, c.To, c.Prio, c.Ref = m.From, m.To, m.Prio, m.Ref
 	case "call_name":
@@ -765,6 +855,35 @@ func diffMultiset(where string, want, got []string) []string {
 // Coq term of a case
 // ---------------------------------------------------------------------------------------
 
+// coqBytes prints a byte string as `pk len [[i; ..]; ..]`: primitive 63-bit integers holding 7 bytes
+// each (least significant byte first), at most 200 per inner list.
+func coqBytes(b []byte) string {
+	var sb strings.Builder
+	fmt.Fprintf(&sb, "(pk %d [", len(b))
+	n := 0
+	for i := 0; i < len(b); i += 7 {
+		var v uint64
+		for k := 0; k < 7 && i+k < len(b); k++ {
+			v |= uint64(b[i+k]) << (8 * uint(k))
+		}
+		switch {
+		case n == 0:
+			sb.WriteString("[")
+		case n%200 == 0:
+			sb.WriteString("]; [")
+		default:
+			sb.WriteString("; ")
+		}
+		fmt.Fprintf(&sb, "%d%%uint63", v)
+		n++
+	}
+	if n > 0 {
+		sb.WriteString("]")
+	}
+	sb.WriteString("])")
+	return sb.String()
+}
+
 func zTriple(a [3]uint64) string {
 	return fmt.Sprintf("(%d, %d, %d)", a[0], a[1], a[2])
 }
@@ -784,7 +903,10 @@ func coqCall(c Call) string {
 	if ctor == "" {
 		ctor = "RAny"
 	}
-	return fmt.Sprintf("mk_ocall %s %d %d %s %s %d %s %d %s", ctor, c.From, c.To, util.Hex([]byte(c.Name)), zTriple(c.Alias), c.Prio, zTriple(c.Ref), c.Code, util.Z(int64(c.Val)))
+	if c.Kind != "response_error" {
+		c.Code = 0
+	}
+	return fmt.Sprintf("mk_ocall %s %d %d %s %s %d %s %d %s", ctor, c.From, c.To, coqBytes([]byte(c.Name)), zTriple(c.Alias), c.Prio, zTriple(c.Ref), c.Code, util.Z(int64(c.Val)))
 }
 
 func coqC12(c c12Case, o c12Obs) string {
@@ -796,23 +918,23 @@ func coqC12(c c12Case, o c12Obs) string {
 			cache = int(cachedNames[gen.Atom(m.Name)])
 		}
 		reqs = append(reqs, fmt.Sprintf("mk_sreq %s %d %d %s %d %s %d %s %s %s %d (mk_comp %s %d %d) %s %d %d %s %d",
-			kindCtor[m.Kind], m.From, m.To, util.Hex([]byte(m.Name)), cache, zTriple(m.Alias), m.Prio, util.B(m.Important), util.B(m.Keep),
-			zTriple(m.Ref), m.Code, util.B(m.Comp.Enable), compID(m.Comp), m.Comp.Threshold, util.Hex(o.Payloads[i]),
-			o.RawRef0[i], m.Result, util.Hex(o.ResultPay[i]), o.Rets[i]))
+			kindCtor[m.Kind], m.From, m.To, coqBytes([]byte(m.Name)), cache, zTriple(m.Alias), m.Prio, util.B(m.Important), util.B(m.Keep),
+			zTriple(m.Ref), m.Code, util.B(m.Comp.Enable), compID(m.Comp), m.Comp.Threshold, coqBytes(o.Payloads[i]),
+			o.RawRef0[i], m.Result, coqBytes(o.ResultPay[i]), o.Rets[i]))
 	}
 	var zt []string
 	for _, z := range o.ZTable {
-		zt = append(zt, fmt.Sprintf("(%d, %s, %s)", z.Type, util.Hex(z.Inner), util.Hex(z.Stream)))
+		zt = append(zt, fmt.Sprintf("(%d, %s, %s)", z.Type, coqBytes(z.Inner), coqBytes(z.Stream)))
 	}
 	var taps, chunks, tapsBA, cb, ca []string
 	for i := range o.TapAB {
-		taps = append(taps, util.Hex(o.TapAB[i]))
+		taps = append(taps, coqBytes(o.TapAB[i]))
 		var l []int64
 		for _, k := range o.ChunksAB[i] {
 			l = append(l, int64(k))
 		}
 		chunks = append(chunks, util.ZList(l))
-		tapsBA = append(tapsBA, util.Hex(o.TapBA[i]))
+		tapsBA = append(tapsBA, coqBytes(o.TapBA[i]))
 	}
 	for _, cl := range o.CallsB {
 		cb = append(cb, coqCall(cl))
@@ -859,6 +981,10 @@ func runC12(n int, outPath, replay string) {
 	for i, c := range cases {
 		c.Tags = tagsC12(c)
 		o := runC12Case(c)
+		if o.Ambiguous {
+			out.Stats["skipped/refusal-within-stale-bytes-of-limit"]++
+			continue
+		}
 		values := make([]any, len(c.Msgs))
 		for k := range c.Msgs {
 			values[k] = c.Msgs[k].value(k)
